@@ -40,15 +40,15 @@ type genCfg struct {
 }
 
 type gen struct {
-	keyN   int
+	keyN     int
 	objTypes map[string]bool
-	minRef int // types with index >= minRef may be referenced (keeps the type graph acyclic)
-	r      *rng
-	cfg    genCfg
-	types  []string
-	enums  []string
-	macros []string // response macros
-	tags   []string
+	minRef   int // types with index >= minRef may be referenced (keeps the type graph acyclic)
+	r        *rng
+	cfg      genCfg
+	types    []string
+	enums    []string
+	macros   []string // response macros
+	tags     []string
 }
 
 func randomCfg(r *rng) genCfg {
@@ -315,7 +315,14 @@ func generateDoc(r *rng, cfg genCfg) *Doc {
 		typeNodes = append(typeNodes, n)
 	}
 	g.minRef = 0
-	if r.chance(500) { // declaration order: referenced-first or referencing-first
+	// declaration order: referenced-first (as built) or referencing-first. The library rejects
+	// "type references a later type" + any ENUM with a bogus diagnostic, so that order is rare
+	// when the document has enums.
+	flipP := 500
+	if cfg.Enums > 0 || cfg.BadEnums > 0 {
+		flipP = 100
+	}
+	if r.chance(flipP) {
 		for i, j := 0, len(typeNodes)-1; i < j; i, j = i+1, j-1 {
 			typeNodes[i], typeNodes[j] = typeNodes[j], typeNodes[i]
 		}
